@@ -99,6 +99,11 @@ Proof.
   destruct (remain_epochs g =? 0); [discriminate|].
   assert (Z0 : rem g d - rem (post_update g []) d = 0).
   { unfold rem, post_update; cbn. lia. }
+  destruct (negb (g_pool g =? 0)).
+  { destruct (nolock_coins (remain_epochs g) remain []) as [total|]; [|discriminate]. inversion H; subst; clear H.
+    unfold rem, post_update; cbn [g_coins g_dist]. rewrite amount_of_coins_add.
+    destruct (is_empty total) eqn:E; [destruct total; [cbn; lia|discriminate]|].
+    rewrite add_lock_rewards_sum. lia. }
   destruct (is_empty ls); [inversion H; subst; lia|].
   destruct (is_empty remain); [inversion H; subst; lia|].
   destruct (is_small_gauge cfg remain); [inversion H; subst; lia|].
@@ -113,15 +118,20 @@ Qed.
 Definition qual_locks (tbl : list lock) (g : gauge) : list lock :=
   filter (fun l => g_dur g <=? l_dur l) (locks_longer tbl (g_denom g) cache_min_duration_ms).
 Definition elig (tbl : list lock) (g : gauge) : list lock :=
-  if is_empty (g_coins g) then [] else qual_locks tbl g.
+  if negb (g_pool g =? 0) then [] else if is_empty (g_coins g) then [] else qual_locks tbl g.
+
+(* lock gauges have a duration above the cache query duration (NoLock gauges carry the 1 ns uptime) *)
+Definition dur_ok (g : gauge) : Prop := g_pool g = 0 -> cache_min_duration_ms < g_dur g.
 
 Definition lc_ok (tbl : list lock) (lc : lcache) : Prop :=
   forall d v, lc_get lc d = Some v -> v = locks_longer tbl d cache_min_duration_ms.
 
-Lemma base_locks_spec : forall tbl g lc ls lc', lc_ok tbl lc -> cache_min_duration_ms < g_dur g ->
+Lemma base_locks_spec : forall tbl g lc ls lc', lc_ok tbl lc -> dur_ok g ->
   base_locks tbl g lc = (ls, lc') -> ls = elig tbl g /\ lc_ok tbl lc'.
 Proof.
-  unfold base_locks, elig, qual_locks. intros tbl g lc ls lc' Hlc Hd H.
+  unfold base_locks, elig, qual_locks, dur_ok. intros tbl g lc ls lc' Hlc Hd H.
+  destruct (g_pool g =? 0) eqn:P; cbn [negb] in *; [|inversion H; subst; auto].
+  apply Z.eqb_eq in P. specialize (Hd P).
   destruct (is_empty (g_coins g)); [inversion H; subst; auto|].
   destruct (lc_get lc (g_denom g)) as [v|] eqn:G.
   - inversion H; subst. rewrite (Hlc _ _ G). auto.
@@ -151,7 +161,8 @@ Proof.
 Qed.
 Lemma elig_pos : forall tbl g, locks_pos tbl -> locks_pos (elig tbl g).
 Proof.
-  intros. unfold elig, qual_locks, locks_pos. destruct (is_empty (g_coins g)); [constructor|].
+  intros. unfold elig, qual_locks, locks_pos. destruct (negb (g_pool g =? 0)); [constructor|].
+  destruct (is_empty (g_coins g)); [constructor|].
   apply filter_Forall, locks_longer_Forall; auto.
 Qed.
 
@@ -159,7 +170,7 @@ Qed.
 Lemma distribute_loop_spec : forall cfg thr tbl gs store lc di cache store' di',
   distribute_loop cfg thr tbl gs store lc di cache = Ok (store', di') ->
   locks_pos tbl -> lc_ok tbl lc ->
-  Forall gauge_ok gs -> Forall (fun g => cache_min_duration_ms < g_dur g) gs ->
+  Forall gauge_ok gs -> Forall dur_ok gs ->
   NoDup (map g_id gs) ->
   (forall g, In g gs -> get_gauge store (g_id g) = Some g) ->
   Forall gauge_ok store ->
